@@ -1,5 +1,6 @@
 import NdonnxVerif.Model.TGraphFns
 import NdonnxVerif.Driver.Index
+import NdonnxVerif.Driver.Reduce
 /-! Driver commands of the tensor-graph tie: `tg_render` (the term the model says ndonnx emits, as text),
 `tg_eval` (parse the text of an exported graph and evaluate it on token data), `tg_parse` (round trip). -/
 namespace Ndx.Drv
@@ -61,6 +62,18 @@ partial def parseTG : List String → Option (TG × List String)
   | "(" :: "Where" :: r => do
       let ([a, b, c], r) ← parseArgs 3 r | none
       some (.sel a b c, r)
+  | "(" :: "ReduceSum" :: kd :: noop :: r => do
+      let ([x, a], r) ← parseArgs 2 r | none
+      some (.reduce .sum (kd == "1") (noop == "1") x a, r)
+  | "(" :: "ReduceProd" :: kd :: noop :: r => do
+      let ([x, a], r) ← parseArgs 2 r | none
+      some (.reduce .prod (kd == "1") (noop == "1") x a, r)
+  | "(" :: "ReduceMin" :: kd :: noop :: r => do
+      let ([x, a], r) ← parseArgs 2 r | none
+      some (.reduce .min (kd == "1") (noop == "1") x a, r)
+  | "(" :: "ReduceMax" :: kd :: noop :: r => do
+      let ([x, a], r) ← parseArgs 2 r | none
+      some (.reduce .max (kd == "1") (noop == "1") x a, r)
   | "(" :: op :: r => do
       let op ← parseBOp op
       let ([x, y], r) ← parseArgs 2 r | none
@@ -99,11 +112,33 @@ def cmdTgEval (args : List String) : String :=
     | none, _ => "bad-op"
   | _ => "bad-op"
 
+/-- `tg_evald <shape>:<values>[;<shape>:<values>…] <term…>`: inputs given as row-major integer data. -/
+def cmdTgEvalData (args : List String) : String :=
+  match args with
+  | inputs :: rest =>
+    let parsed := (inputs.splitOn ";").mapM (fun s => match s.splitOn ":" with
+      | [sh, vals] => do
+          let sh ← parseNatList sh; let vals ← parseIntList vals
+          some (constT sh vals)
+      | _ => none)
+    match parsed, parseWhole (tokenize (" ".intercalate rest)) with
+    | some ts, some g => "ok " ++ showT (g.eval ts)
+    | _, none => "unparsed"
+    | none, _ => "bad-op"
+  | _ => "bad-op"
+
 /-- `tg_parse <term…>` → the re-rendered term (`unparsed` when it uses an operator outside the model). -/
 def cmdTgParse (args : List String) : String :=
   match parseWhole (tokenize (" ".intercalate args)) with
   | some g => g.render
   | none => "unparsed"
+
+def parseOptCode (s : String) : Option (Option Nat) :=
+  if s == "~" then some none else (parseNat? s).map some
+
+def showOptTG : Option TG → String
+  | some g => g.render
+  | none => "err TypeError"
 
 def parsePairs (s : String) : Option (List (Int × Int)) :=
   if s == "-" then some [] else
@@ -146,6 +181,19 @@ def cmdTgRender (args0 : List String) : String :=
     | some i, some a => (takeGraph x i a).render | _, _ => "bad-op"
   | ["reshape", rank, shape] => match parseNat? rank, parseIntList shape with
     | some r, some s => (reshapeGraph x r s).render | _, _ => "bad-op"
+  | [fn, t, rank, axis, kd, dt] =>
+    match parseNat? t, parseNat? rank, parseAxisArg axis, parseOptCode dt with
+    | some t, some r, some ax, some dt =>
+      let kd := kd == "1"
+      match fn with
+      | "sum" => showOptTG (sumGraph x t dt r ax kd)
+      | "prod" => showOptTG (prodGraph x t dt r ax kd)
+      | "min" => (minGraph x t r ax kd).render
+      | "max" => (maxGraph x t r ax kd).render
+      | "all" => (allGraph x t r ax kd).render
+      | "any" => (anyGraph x t r ax kd).render
+      | _ => "bad-op"
+    | _, _, _, _ => "bad-op"
   | ["concat", axis] => match parseInt? axis with
     | some a => (concatGraph x (.inp 1) a).render | none => "bad-op"
   | ["stack", axis] => match parseInt? axis with
